@@ -20,6 +20,7 @@ import SA.Base.Util
 import SA.Gen.Consts
 import SA.Gen.C09
 import SA.Gen.C11
+import SA.Gen.C11Init
 import SA.Model.DnsReq
 
 namespace SA.DnsHandshake
@@ -145,10 +146,18 @@ structure Probe where
 
 abbrev Oracle := Probe → Out
 
+/-- the downstream codec a new client starts with (regenerated from NewClientDnsConnection): it only labels the probes
+    made before a codec is negotiated — those answers are decoded with the codec the probe itself names -/
+def initialDown : Option Codec :=
+  match SA.Gen.c11ClientInitialDown with
+  | "Base32" => some .b32 | "Base64" => some .b64 | "Base64u" => some .b64u | "Base85" => some .b85
+  | "Base91" => some .b91 | "Base128" => some .b128 | "Raw" => some .raw
+  | _ => none
+
 structure St where
   q : QT
   up : Option Codec := none
-  down : Option Codec := none
+  down : Option Codec := initialDown
   edns : Bool := false
   lzy : Bool := false
   deriving Repr
@@ -170,7 +179,7 @@ def retry (n : Nat) (O : Oracle) (pr : Probe) (cont : Out → Bool) : Option Out
 def typeTestCodec (cfg : Cfg) (q : QT) : Codec := if q ∈ cfg.typeTestRaw then .raw else .b32
 
 def typeProbe (cfg : Cfg) (q : QT) : Probe :=
-  { cmd := .y (typeTestCodec cfg q), q := q, up := none, down := none, edns := false }
+  { cmd := .y (typeTestCodec cfg q), q := q, up := none, down := initialDown, edns := false }
 
 /-- query_types.go Before, as written (indices default to 0) -/
 def beforeAux (q1 q2 : QT) : List QT → Nat → Nat × Nat → Nat × Nat
